@@ -81,6 +81,30 @@ Det(M, n) == IF n = 0 THEN C1 ELSE IF n = 1 THEN M[1][1]
                           LET t == CMul(M[n][j], Det(Minor(M, n, n, j), n-1)) IN IF (n + j) % 2 = 0 THEN t ELSE CNeg(t)], 1, n)
 ReplaceCol(M, n, j, b) == [r \in 1..n |-> [c \in 1..n |-> IF c = j THEN b[r] ELSE M[r][c]]]
 Cramer(M, n, b) == LET d == Det(M, n) IN [j \in 1..n |-> CDiv(Det(ReplaceCol(M, n, j, b), n), d)]
+\* Cramer's rule after scaling every row of [M | b] to Gaussian integers (the ratio of determinants
+\* is unchanged): determinants of integer matrices create no denominators, which keeps all
+\* intermediate numbers far smaller than rational elimination does (32-bit integers in TLC).
+LCM(a, b) == (a \div GCD(a, b)) * b
+RECURSIVE LcmF(_,_,_)
+LcmF(f, lo, hi) == IF lo > hi THEN 1 ELSE LCM(f[lo], LcmF(f, lo + 1, hi))
+RowDen(M, n, b, r) == LCM(LcmF([c \in 1..n |-> LCM(M[r][c][1][2], M[r][c][2][2])], 1, n), LCM(b[r][1][2], b[r][2][2]))
+ScaledM(M, n, b) == [r \in 1..n |-> LET l == RI(RowDen(M, n, b, r)) IN [c \in 1..n |-> CScale(l, M[r][c])]]
+ScaledB(M, n, b) == [r \in 1..n |-> CScale(RI(RowDen(M, n, b, r)), b[r])]
+\* division of Gaussian integers a / b with the content of b removed first (smaller intermediates)
+GI(re, im) == <<RI(re), RI(im)>>
+CDivI(a, b) == LET br == b[1][1] bi == b[2][1] ar == a[1][1] ai == a[2][1]
+                   g  == GCD(Abs(br), Abs(bi))
+                   pr == br \div g   pi == bi \div g
+                   m  == pr * pr + pi * pi
+               IN <<RDiv(Q(ar * pr + ai * pi, m), RI(g)), RDiv(Q(ai * pr - ar * pi, m), RI(g))>>
+\* <<>> if singular
+CramerI(M, n, b) == LET MI == ScaledM(M, n, b) bI == ScaledB(M, n, b) d == Det(MI, n) IN
+   IF CIsZero(d) THEN <<>> ELSE
+   LET N == [j \in 1..n |-> Det(ReplaceCol(MI, n, j, bI), n)]
+       \* common integer content of all determinants
+       g == LET RECURSIVE G(_) G(j) == IF j > n THEN GCD(Abs(d[1][1]), Abs(d[2][1])) ELSE GCD(GCD(Abs(N[j][1][1]), Abs(N[j][2][1])), G(j + 1)) IN G(1)
+       dd == GI(d[1][1] \div g, d[2][1] \div g)
+   IN [j \in 1..n |-> CDivI(GI(N[j][1][1] \div g, N[j][2][1] \div g), dd)]
 Inverse(M, n) == LET d == Det(M, n) IN
    [r \in 1..n |-> [c \in 1..n |-> LET co == Det(Minor(M, n, c, r), n-1) IN CDiv(IF (r + c) % 2 = 0 THEN co ELSE CNeg(co), d)]]
 MatVec(M, n, m, v) == [r \in 1..n |-> CSumF([c \in 1..m |-> CMul(M[r][c], v[c])], 1, m)]
